@@ -268,8 +268,21 @@ func c10Case(w *core.W, j int) {
 	g.Pool = []model.Name{zone, owner}
 	var set c10Set
 	n := 1 + g.R.IntN(6)
+	emptyTail := j%13 == 4
+	if emptyTail {
+		l = model.Layouts[[]uint16{257, 256, 16, 10}[j/13%4]] // CAA, URI, TXT, NULL: RDATA may end in an empty field
+	}
 	for i := 0; i < n; i++ {
 		r := g.Rec(l)
+		if emptyTail && i%2 == 0 {
+			switch r.Vals[len(r.Vals)-1].(type) {
+			case []byte:
+				r.Vals[len(r.Vals)-1] = []byte{}
+			case [][]byte:
+				r.Vals[len(r.Vals)-1] = [][]byte{{}}
+			}
+			r.Fixup()
+		}
 		if c01Class(r, nil) != "" {
 			continue
 		}
@@ -329,6 +342,8 @@ func c10Case(w *core.W, j int) {
 		}
 		if j%9 == 8 {
 			w.Violation("C10/sign-fails/large-rrset/"+algName(alg), fmt.Sprintf("Sign of a well-formed TXT RRset of %d records fails: %v", len(set.recs), serr), wit)
+		} else if k.Key.KeyTag() != 0 {
+			w.Violation("C10/sign-fails/"+l.Name+"/"+algName(alg), fmt.Sprintf("Sign of a well-formed %s RRset of %d records fails: %v", l.Name, len(set.recs), serr), wit)
 		}
 		return
 	}
@@ -716,12 +731,16 @@ func indexByte(s string, c byte) int {
 }
 
 func init() {
-	plan, run := sections(section{"rrsets", tiered(360, 12000), c10Case})
+	plan, run := sections(section{"rrsets", tiered(360, 12000), c10Case},
+		section{"concurrent", tiered(24, 400), func(w *core.W, j int) {
+			w.Eval(1)
+			concurrentRRSIGVerify(w, j, "C10/concurrent-verify-fails")
+		}})
 	core.Register(&core.Monitor{
 		ID: "C10", Level: "exploration", Plan: plan, Run: run, MaxParallel: 16, CaseTimeout: 300e9,
 		Rule: "RRsets of every signable registry type (1..6 records, repeated records, mixed case, escaped names, wildcard and multi-label owners) x RSASHA1/256(1024,2048)/512, ECDSA P-256/P-384, Ed25519 with keys generated per run; " +
 			"oracle = independent verifier (own RFC 4034 s.3.1.8.1/6.2/6.3 + RFC 6840 s.5.1 canonical form, own RFC 3110/6605/8080 key decoding, Go crypto): Sign output must verify independently and with Verify; harness-made signatures over the model form must be accepted; " +
-			"irrelevant variants (order, repeats, TTL, owner case, s.6.2 name case, wildcard expansions of 1..3 labels, RFC 1035 \\X spellings of letters in owner labels and embedded names - verified and signed from) must verify; RRSIG/DNSKEY owners differing by 0x20 in a non-letter (^~ [{ ]} `@) must not; ~60 single-field alterations of RRSIG/DNSKEY/RRset and signature/key bit flips (all signature bits in thorough): Verify==nil implies the model accepts; non-trivial = distinct signed RRset",
+			"irrelevant variants (order, repeats, TTL, owner case, s.6.2 name case, wildcard expansions of 1..3 labels, RFC 1035 \\X spellings of letters in owner labels and embedded names - verified and signed from) must verify; RRSIG/DNSKEY owners differing by 0x20 in a non-letter (^~ [{ ]} `@) must not; ~60 single-field alterations of RRSIG/DNSKEY/RRset and signature/key bit flips (all signature bits in thorough): Verify==nil implies the model accepts; 8 goroutines verifying 4 valid (RRSIG, key, RRset) triples of their own and a shared one at the same time: every call succeeds; non-trivial = distinct signed RRset",
 		Assumptions: []string{"NXT, SIG and A6 RRsets are not generated (obsolete)", "signature validity windows are not part of Verify (see C17 for ValidityPeriod)"},
 		MinObserved: []string{"signed", "harness_signatures", "alterations_rejected"},
 	})
